@@ -16,7 +16,8 @@ _ENGINES = {
 PROPS = {
     'C01': dict(engine='E1', level='exploration', quick_runs=6000, thorough_s=480),
     'C02': dict(engine='E1', level='exploration', quick_runs=6000, thorough_s=480),
-    'C03': dict(engine='E1', level='exploration', quick_runs=4000, thorough_s=600),
+    'C03': dict(engine='E1', level='exploration', quick_runs=4000, thorough_s=600,
+                extra=[('E2', 1000, 0.5)]),
     'C04': dict(engine='E2', level='exploration', quick_runs=2500, thorough_s=600),
     'C05': dict(engine='E2', level='exploration', quick_runs=2500, thorough_s=480),
     'C06': dict(engine='E2', level='exploration', quick_runs=2500, thorough_s=480),
@@ -40,3 +41,14 @@ def get(name):
 def for_prop(prop):
     cfg = PROPS[prop]
     return cfg['engine'], get(cfg['engine']), cfg
+
+
+def parts_for(prop):
+    """[(engine_name, engine, quick_runs, share of the thorough budget)]"""
+    cfg = PROPS[prop]
+    extra = cfg.get('extra', [])
+    main_share = 1.0 - sum(e[2] for e in extra)
+    out = [(cfg['engine'], get(cfg['engine']), cfg['quick_runs'], main_share)]
+    for name, runs, share in extra:
+        out.append((name, get(name), runs, share))
+    return out
